@@ -373,7 +373,7 @@ pub fn rsa_pss_sign_awslc(pkcs1_priv_der: &[u8], msg: &[u8]) -> MR<Vec<u8>> {
     Ok(sig)
 }
 
-fn i2osp(x: &BigUint, len: usize) -> Vec<u8> {
+pub fn i2osp(x: &BigUint, len: usize) -> Vec<u8> {
     let b = x.to_bytes_be();
     let mut out = vec![0u8; len.saturating_sub(b.len())];
     out.extend_from_slice(&b);
